@@ -186,7 +186,17 @@ def step (_ : Unit) (op impl : String) : Unit × DrvOut :=
       | ["P"] =>
         match envClass with
         | some known =>
-          if impl == "err" then ((), { model := "err" }) else ((), { model := "panic", spec := if impl == "panic" then known else "ok" })
+          if impl == "panic" then ((), { model := "panic", spec := known })
+          else if impl == "err" then ((), { model := "err" })
+          else
+            -- a tree in which this class no longer panics (the recorded front-half column is stale):
+            -- the model cannot predict the view, the spec is still evaluated on the accepted configuration
+            let spec := match (if impl.startsWith "ok " then parseView (words ((impl.drop 3).toString)) else none) with
+              | none => "FAIL unparsable implementation answer"
+              | some iv => match violations iv with
+                | [] => "ok"
+                | l => "FAIL accepted configuration violates: " ++ "; ".intercalate l
+            ((), { model := "-", spec })
         | none => ((), { model := "panic", spec := "FAIL Load panics while reading the file / environment" })
       | _ =>
         match parseView front with
